@@ -417,24 +417,29 @@ pub fn c14(ctx: &mut Ctx) {
         let n_seg = pi["segments"].as_array().map(|a| a.len()).unwrap_or(0);
         faults.push(("segments-1".into(), vec![Fault::Delete { path: "segments".into(), index: n_seg - 1 }], false));
         faults.push(("segments+1".into(), vec![Fault::Dup { path: "segments".into(), index: n_seg - 1 }], false));
-        if let Some(facts) = models_full::layout_facts(layout) {
+        {
             let lt: u64 = log_trace.to_biguint().try_into().unwrap();
-            for (seg, cells, rows) in facts.builtins {
-                let b = getf(&format!("segments[{seg}].begin_addr"));
-                let cap = (1u64 << lt) / rows;
-                for (nm, stop) in [
-                    ("stop=begin+1cell", b + Felt::from(1u64)),
-                    ("stop=begin+1instance", b + Felt::from(*cells)),
-                    ("stop=begin+capacity", b + Felt::from(cap * cells)),
-                    ("stop=begin+capacity+1instance", b + Felt::from((cap + 1) * cells)),
-                    ("stop=begin+capacity+1cell", b + Felt::from(cap * cells + 1)),
-                    ("stop=begin-1", b - Felt::ONE),
-                ] {
-                    faults.push((format!("builtin:{nm}"), vec![setf(format!("segments[{seg}].stop_ptr"), stop)], false));
+            let pit: PublicInput = serde_json::from_value(pi.clone()).unwrap();
+            if let Some((_, builtins)) = models_full::builtin_capacities(layout, &pit, lt) {
+                for (seg, cells, cap) in builtins {
+                    let b = getf(&format!("segments[{seg}].begin_addr"));
+                    let mut variants: Vec<(&str, Felt)> = vec![("stop=begin+1cell", b + Felt::from(1u64)), ("stop=begin-1", b - Felt::ONE)];
+                    if let Some(c) = &cap {
+                        let c: u64 = c.try_into().unwrap_or(u64::MAX >> 8);
+                        if c >= 1 {
+                            variants.push(("stop=begin+1instance", b + Felt::from(cells)));
+                        }
+                        variants.push(("stop=begin+capacity", b + Felt::from(c * cells)));
+                        variants.push(("stop=begin+capacity+1instance", b + Felt::from((c + 1) * cells)));
+                        variants.push(("stop=begin+capacity+1cell", b + Felt::from(c * cells + 1)));
+                    }
+                    for (nm, stop) in variants {
+                        faults.push((format!("builtin:{nm}"), vec![setf(format!("segments[{seg}].stop_ptr"), stop)], false));
+                    }
+                    let e = getf(&format!("segments[{seg}].stop_ptr"));
+                    faults.push(("builtin:begin+1".into(), vec![setf(format!("segments[{seg}].begin_addr"), b + Felt::ONE)], false));
+                    faults.push(("builtin:stop-1".into(), vec![setf(format!("segments[{seg}].stop_ptr"), e - Felt::ONE)], false));
                 }
-                let e = getf(&format!("segments[{seg}].stop_ptr"));
-                faults.push(("builtin:begin+1".into(), vec![setf(format!("segments[{seg}].begin_addr"), b + Felt::ONE)], false));
-                faults.push(("builtin:stop-1".into(), vec![setf(format!("segments[{seg}].stop_ptr"), e - Felt::ONE)], false));
             }
         }
         // main page: address perturbation of every cell, truncation, reordering, insertion
